@@ -22,6 +22,7 @@ type Prop struct {
 }
 
 type File struct {
+	Config string          `json:"config,omitempty"` // e.g. "noasmtest" for the pure-Go build configuration
 	Level int              `json:"arch_level"`
 	Props map[string]*Prop `json:"props"`
 }
@@ -99,7 +100,12 @@ func ExtraAdd(id, key string, v float64) {
 	p.Extra[key] = old + v
 }
 
-func SetLevel(l int) { mu.Lock(); current.Level = l; mu.Unlock() }
+func SetLevel(l int) {
+	mu.Lock()
+	current.Level = l
+	current.Config = os.Getenv("VERIF_CONFIG")
+	mu.Unlock()
+}
 
 // Flush writes the stats file named by VERIF_STATS (if set).
 func Flush() {
